@@ -439,7 +439,7 @@ def h_svd(a, full_matrices=True, compute_uv=True, hermitian=False):
             for i in range(m):
                 U[idx + (i, k)] = ucols[k][i] if k < r else Alg.var(fresh("free", base="ufree"))
         for k in range(kk):
-            Sg[idx + (k,)] = Alg.var(fresh("free", base="sv", nonneg=True)) if k < r else Alg(ZERO)
+            Sg[idx + (k,)] = Alg.var(fresh("free", base="sv", positive=True)) if k < r else Alg(ZERO)
         # ---- kernel basis: orthonormal basis of the orthogonal complement of the row space
         rows = [A[i] for i in range(m)]
         rb = _independent_gs(rows, r)
